@@ -261,10 +261,29 @@ def _opt_case(res, rng, seed_desc):
     prof = Profile("test", gap=gap)
     if rng.random() < 0.15:
         prof.update({"major_novel": rng.choice([2.0, 5.0]), "threshold": rng.choice([0.3, 0.5, 0.8])})
-    cov = tables.make_coverage(g, counts, profile=prof)
+    # evidence as the read loader delivers it: indel support in the realigner's own table (its depth need not
+    # equal the pile-up depth) and observations below the quality thresholds mixed in
+    indel_table = None
+    if rng.random() < 0.35:
+        counts, indel_table = tables.split_indel_table(g, counts, rng)
+        if not indel_table:
+            indel_table = None
+    lowq = None
+    if rng.random() < 0.35:
+        lowq = {}
+        for p_ in rng.sample(sorted(counts), min(len(counts), rng.randint(1, 6))):
+            ops_ = ["_"] + [o for (pp, o) in g.mutations if pp == p_ and o[:3] != "ins"]
+            o_ = rng.choice(ops_)
+            lowq.setdefault(p_, {})[o_] = [rng.choice([(5, 40), (60, 3), (0, 0), (9, 60)])
+                                            for _ in range(rng.choice([1, 3, 10, 40]))]
+    cov = tables.make_coverage(g, counts, profile=prof, indels=indel_table, lowq=lowq)
+    exact_table = indel_table is None or all(
+        abs(sum(v) - sum(n for o, n in counts.get(k[0], {}).items() if o[:3] != "ins")) == 0
+        for k, v in indel_table.items())
     cn = CNSolution(g, 0, tables.cn_list(g, copies))
     desc = {"gene": gname, "genome": genome, "copies": [list(c) for c in copies], "depth": depth,
-            "eps": eps, "gap": gap, "extra_variants": {f"{p}:{o}": n for (p, o), n in extra.items()},
+            "eps": eps, "gap": gap, "indel_table": {f"{k[0]}:{k[1]}": v for k, v in (indel_table or {}).items()},
+            "lowq_sites": len(lowq or {}), "extra_variants": {f"{p}:{o}": n for (p, o), n in extra.items()},
             "gen_seed": seed_desc}
     lpmon.reset()
     with Capture() as cap:
@@ -281,7 +300,7 @@ def _opt_case(res, rng, seed_desc):
         res.check("empty_when_no_candidate", sols == [], "no candidate for a configuration but solutions reported", **desc)
         return None
     nt = check_major_call(res, g, cov, cn, cap.calls[0], desc,
-                          planted=[c[0] for c in copies], noise_free=(eps == 0 and not extra),
+                          planted=[c[0] for c in copies], noise_free=(eps == 0 and not extra and exact_table),
                           planted_copies=copies)
     res.check("estimate_returns_model_result", sols is cap.calls[0][4] or sols == cap.calls[0][4],
               "estimate_major does not return the model's solutions")
@@ -314,7 +333,8 @@ def _pairs_case(res, case):
     work = [list(p) for p in pairs]
     # sampled multisets of 1-4 alleles including fused / partial / deletion alleles
     dele = g.deletion_allele()
-    others = sorted(a for a, al in g.alleles.items() if al.cn_config != "1" and a != dele)
+    others = sorted(a for a, al in g.alleles.items() if al.cn_config != "1" and a != dele
+                    and tables.callable_allele(g, a))
     for _ in range(case.get("multi", 0)):
         n = rng.choice([1, 3, 3, 4]) if not others else rng.choice([1, 2, 3, 4])
         ms = []
